@@ -9,6 +9,10 @@ oracle:         real code's stdio calls vs `pdshmodel relay spec` (Relay/Spec.le
 scheduler:      the unmodified dsh.c under the controlled scheduler (vlib/relay_sched.py): 2-6 targets with
                 scripted stdout+stderr, adversarial schedules at every stdio call; per stream the stripped
                 concatenation of the wrapped fputs calls = the scripted bytes, exactly once
+xpoll:          the REAL src/common/xpoll.c over a scripted poll(2) vs `pdshmodel relay xpoll` (Relay/XPoll.lean:
+                validation, revents cleared, translation both ways, errno/rv/timeout handed through); under the
+                scheduler every poll return of every worker: which handlers read next and IN WHICH ORDER
+                (`XPoll.loopIter`: stdout's before stderr's, EINTR retried by the loop)
 supporting:     real pdsh -R exec runs with scripted writers (kernel fragmentation, real threads)
 The procedure is shared with C06: vlib/relay.py:run_check.
 """
